@@ -97,6 +97,8 @@ func VerifRace(kv map[string]string) string {
 	muts := [][]string{
 		{"+e1.0/s1/a"}, {"+v1/s1/1/pol=p1"}, {"+e1.0/s1/a+b", "+e2.0/s2/b", "+k1/htpasswd/1", "+i1/s1/1"}, {"-v2"}, {"+v2/s2/1"}, {"+t1/s2/1"},
 		{"-i1"}, {"+i1/s1/0"}, {"+c/1", "+e3.0/s3/a", "+e2.0/s2/a"}, {"-t1"}, {"+t1/s2/0"}, {"+k1/htpasswd/2"}, {"+v1/s1/0/pol=p1"},
+		// resources of another controller's class pass through the worker too (never admitted, edited, deleted)
+		{"+v3/s1/0/cls=other"}, {"+v3/s1/1/cls=other", "+e1.0/s1/a+b"}, {"-v3"},
 	}
 	for r := 0; r < rounds; r++ {
 		for _, m := range muts[r%len(muts)] {
